@@ -1,5 +1,6 @@
 import SfntV.Model.Metrics
 import SfntV.Model.Caret
+import SfntV.Model.Os2
 import SfntV.Spec.Metrics
 
 namespace SfntV.Drive.Metrics
@@ -109,6 +110,37 @@ def checkHhea (hhea : Bytes) (ws ls : List Int) (es : List Rect) : List String :
 
 def showCheck (l : List String) : String := if l.isEmpty then "ok" else "mismatch:" ++ ";".intercalate l
 
+def parseOs2 (fs : List (String × String)) : Option Os2 := do
+  let sub ← (getField fs "sub").bind parseInts
+  let ur ← (getField fs "ur").bind parseNatList
+  let panose ← getHex fs "panose"
+  pure {
+    weightClass := ← getNat fs "wc", widthClass := ← getNat fs "wd"
+    isBold := ← getBool fs "bold", isItalic := ← getBool fs "italic"
+    isRegular := ← getBool fs "regular", isOblique := ← getBool fs "oblique"
+    firstCharIndex := ← getNat fs "first", lastCharIndex := ← getNat fs "last"
+    ascent := ← getInt fs "asc", descent := ← getInt fs "desc"
+    winAscent := ← getInt fs "wasc", winDescent := ← getInt fs "wdesc"
+    lineGap := ← getInt fs "gap", capHeight := ← getInt fs "cap", xHeight := ← getInt fs "xh"
+    avgGlyphWidth := ← getInt fs "avg"
+    sub := sub.getD []
+    familyClass := ← getInt fs "fam"
+    panose := panose.map (·.toNat)
+    vendor := ← getHex fs "vendor"
+    unicodeRange := ur
+    codePageRange := ← getNat fs "cpr"
+    permUse := ← getInt fs "perm"
+    permNoSubsetting := ← getBool fs "nosub", permOnlyBitmap := ← getBool fs "bitmap" }
+
+def showOs2 (o : Os2) : String :=
+  s!"wc={o.weightClass} wd={o.widthClass} bold={showBool o.isBold} italic={showBool o.isItalic} " ++
+  s!"regular={showBool o.isRegular} oblique={showBool o.isOblique} first={o.firstCharIndex} " ++
+  s!"last={o.lastCharIndex} asc={o.ascent} desc={o.descent} wasc={o.winAscent} wdesc={o.winDescent} " ++
+  s!"gap={o.lineGap} cap={o.capHeight} xh={o.xHeight} avg={o.avgGlyphWidth} sub={intsToString o.sub} " ++
+  s!"fam={o.familyClass} panose={toHex (o.panose.map UInt8.ofNat)} vendor={toHex o.vendor} " ++
+  s!"ur={natsToString o.unicodeRange} cpr={o.codePageRange} perm={o.permUse} " ++
+  s!"nosub={showBool o.permNoSubsetting} bitmap={showBool o.permOnlyBitmap}"
+
 def prefixes : List String := ["metrics."]
 
 def handle (op : String) (fs : List (String × String)) : String :=
@@ -177,6 +209,14 @@ def handle (op : String) (fs : List (String × String)) : String :=
     match getHex fs "b" with
     | some b => showWith (decodeMaxp b) (fun m =>
         (s!"{m.numGlyphs};" ++ (match m.ttf with | some v => natsToString v | none => "-")))
+    | none => "bad-case"
+  else if op == "metrics.os2enc" then
+    match parseOs2 fs with
+    | some o => "ok:" ++ toHex (encodeOs2 o)
+    | none => "bad-case"
+  else if op == "metrics.os2dec" then
+    match getHex fs "b" with
+    | some b => showWith (decodeOs2 b) showOs2
     | none => "bad-case"
   else if op == "metrics.postenc" then
     match getInt fs "angle", getInt fs "upos", getInt fs "uthick", getBool fs "fixed" with
